@@ -67,6 +67,21 @@ func checkTotal(h *harness.H, text string) (*wire.Resp, *harness.Failure) {
 	if !r.CheckOK && strings.TrimSpace(r.CheckErr) == "" {
 		return r, harness.Failf("rejected without a descriptive error\n%s", text)
 	}
+	// the verdict must not depend on how the caller and the checker goroutine are scheduled: repeat
+	// with the caller delayed right after the goroutine is started (hook point 11)
+	if (len(text)+int(h.Seed))%3 == 0 {
+		req3 := *req
+		req3.YieldSeed = uint64(1 + len(text)%7)
+		r3 := h.Call(0, &req3, 30*time.Second)
+		if r3.Outcome == pool.OK && r3.Resp.ParseOK && r3.Resp.CheckOK != r.CheckOK {
+			// once more, to make sure which of the two is the unstable one
+			r4 := h.Call(0, req, 30*time.Second)
+			if r4.Outcome == pool.OK {
+				return r, harness.Failf("the verdict depends on scheduling: %q normally, %q when the caller is delayed after starting the checker goroutine (and %q on a third call)\n%s", verdictStr(r), verdictStr(r3.Resp), verdictStr(r4.Resp), text)
+			}
+		}
+		h.S.Count("verdict_checked_with_delayed_caller")
+	}
 	if !r.Settled {
 		// background work still running after the verdict: watch it alone until it settles or dies
 		req2 := *req
